@@ -894,7 +894,7 @@ pub fn generate(kind: &str, thorough: bool, seed: u64, corpus: &str, out: &mut O
                     cur = next;
                 }
                 let budget = if thorough { 4 } else { 3 };
-                let bodies = crate::enumgen::selsets(&["s1", "s2", "k: s1", "s1: s2", "__typename"], &["", "Subscription", "Query", "Zed"], &["F", "G"], budget, 3);
+                let bodies = crate::enumgen::selsets(&["s1", "s2", "k: s1", "s1: s2", "__typename", "k: __typename", "s1: __typename"], &["", "Subscription", "Query", "Zed"], &["F", "G"], budget, 3);
                 for (i, b) in bodies.iter().enumerate() {
                     let name = if i % 2 == 0 { " Sub" } else { "" };
                     let text = format!("subscription{} {} fragment F on Subscription {{ s1 ...G }} fragment G on Subscription {{ k: s2 ...F }}", name, b);
